@@ -777,6 +777,145 @@ def run_options(ctx):
 
 
 # ----------------------------------------------------------------------------------------------
+# boundary-value cases: every comparison of mixed.py / initialize_mixed.py on a count, a position or a threshold
+# ----------------------------------------------------------------------------------------------
+def _positions(k):
+    return sorted({("first", 0), ("middle", k // 2), ("last", k - 1)}, key=lambda t: t[1]) if k >= 3 else \
+        ([("first", 0), ("last", 1)] if k == 2 else [("first", 0)])
+
+
+def _fixed_probs(k):
+    """a valid vector of dyadic rationals (sum exactly 1 in floating point, every entry in (0, 1) for k >= 2)"""
+    w = [float(1 + (i % 3)) for i in range(k)]
+    tot = sum(w)
+    m = 1
+    while m < tot:
+        m *= 2
+    w[0] += m - tot          # integers summing to a power of two: the quotients are exact
+    return [x / m for x in w]
+
+
+def _outcome(got):
+    w = got.split(" ")
+    return w[0] if w[0] == "accept" else "raise:" + w[1].split(":")[-1]
+
+
+def boundary_decisions(ctx):
+    """mixed.py:76 `any(i < 0.0 ..)`, :78 `any(i > 1.0 ..)`, :80 `isclose(sum, 1.0)`: the offending entry at the first /
+    middle / last position with the other two tests passing (MC/DC), at distance 0, 1e-12 and 1e-3 from the bound."""
+    r = ctx.nprng()
+    for classical in (True, False):
+        for k in (1, 2, 3, 5):
+            states = make_states(r, 1 if classical else 2, k, "rational")
+            n = 1 if classical else 2
+            base = _fixed_probs(k)
+            for pname, pos in _positions(k):
+                other = (pos + 1) % k
+                # (a) negative entry, sum kept at 1 (only the `< 0.0` test can reject)
+                for tag, d, exp in (("-1e-3", 1e-3, "neg"), ("-1e-12", 1e-12, None), ("-0.0", None, "accept"),
+                                    ("0.0", 0.0, "accept"), ("+1e-12", -1e-12, None)):
+                    if k == 1 and d is not None and d != 0.0:
+                        p = [-d]                    # a single entry: the sum cannot be kept
+                        exp = "neg" if d >= 1e-6 else None
+                        if d < 0:
+                            continue
+                    elif k == 1:
+                        continue
+                    else:
+                        p = list(base)
+                        p[other] += p[pos]
+                        p[pos] = -0.0 if d is None else -d
+                        p[other] += 0.0 if d is None else d
+                    label = f"bnd-neg:{pname}:{tag}"
+                    got, _ = tie_decision(ctx, states, p, classical, label)
+                    ctx.count(f"boundary:negative:{tag}:{pname}:{_outcome(got)}")
+                    reject_oracle(ctx, got, label, p, exp, n, k, classical)
+                # (b) entry above 1, the others 0: for 1e-12 and one ulp the sum still passes isclose, only `> 1.0` rejects
+                for tag, d, exp in (("1.0", 0.0, "accept"), ("1+ulp", 2.0 ** -52, None), ("1+1e-12", 1e-12, None),
+                                    ("1+1e-3", 1e-3, "gt1")):
+                    p = [0.0] * k
+                    p[pos] = 1.0 + d
+                    label = f"bnd-gt1:{pname}:{tag}"
+                    got, _ = tie_decision(ctx, states, p, classical, label)
+                    ctx.count(f"boundary:above-one:{tag}:{pname}:{_outcome(got)}")
+                    reject_oracle(ctx, got, label, p, exp, n, k, classical)
+                # (c) sum off on both sides of isclose's 1e-9 (3e-10 inside, 3e-9 outside; 5e-10..2e-9 excluded), every
+                # entry inside [0, 1]
+                if k >= 2:
+                    for tag, d, exp in (("-3e-9", -3e-9, None), ("-3e-10", -3e-10, None), ("+3e-10", 3e-10, None),
+                                        ("+3e-9", 3e-9, None), ("-1e-3", -1e-3, "sum"), ("+1e-3", 1e-3, "sum")):
+                        p = list(base)
+                        p[pos] += d
+                        label = f"bnd-sum:{pname}:{tag}"
+                        got, _ = tie_decision(ctx, states, p, classical, label)
+                        ctx.count(f"boundary:sum-tolerance:{tag}:{_outcome(got)}")
+                        reject_oracle(ctx, got, label, p, exp, n, k, classical)
+
+
+def boundary_ensembles(ctx):
+    """mixed.py:92 ceil(log2 k) at k = 1, 2, 3, 4, 5, 7, 8, 9 (padding 2^a - k = 0, 1, maximal at :128), n = 1, 2, 3;
+    probabilities omitted vs given; an entry exactly 0 or exactly 1 at the first / middle / last position (:111 zip,
+    :140 enumerate / :150 ctrl_state index); `reset` on/off incl. a = 0 (:162); both purification modes."""
+    r = ctx.nprng()
+    # (1) aux-count boundaries
+    for n in (1, 2, 3):
+        for k in (1, 2, 3, 4, 5, 7, 8, 9):
+            a = clog2(k)
+            for pk in ("none", "random"):
+                if n == 3 and (k > 5 or pk == "none") and k != 8:
+                    continue
+                states, probs = make_states(r, n, k, "complex" if pk == "none" else "mixed"), make_probs(r, k, pk)
+                tie_purification(ctx, n, k, states, probs, reset=bool(k % 2))
+                for classical in (True, False):
+                    if not classical and (n < 2 or k < 2 or (n == 3 and k > 5)):
+                        continue
+                    oracle_case(ctx, n, k, states, probs, classical, bool(k % 2), "bnd-k", pk)
+                    ctx.count(f"boundary:aux-count:k={k}:a={a}:padding={2 ** a - k}:{'classical' if classical else 'incircuit'}")
+                    ctx.count(f"boundary:probabilities-{'omitted' if probs is None else 'given'}:n={n}")
+    # (2) probability exactly 0 / exactly 1 by position
+    for n in (1, 2):
+        for k in (2, 3, 4, 5):
+            for pname, pos in _positions(k):
+                for what in ("zero", "one"):
+                    if what == "zero":
+                        p = np.array(make_probs(r, k, "random"))
+                        p[pos] = 0.0
+                        probs = [float(x) for x in p / p.sum()]
+                    else:
+                        probs = [0.0] * k
+                        probs[pos] = 1.0
+                    states = make_states(r, n, k, "complex")
+                    tie_purification(ctx, n, k, states, probs, reset=False)
+                    for classical in (True, False):
+                        if not classical and n < 2:
+                            continue
+                        oracle_case(ctx, n, k, states, probs, classical, False, f"bnd-p-{what}", pname)
+                        ctx.count(f"boundary:probability-exactly-{what}:{pname}:{'classical' if classical else 'incircuit'}")
+    # (3) reset on / off at a = 0 and a = 1, both modes and the static entry point
+    for n, k in ((1, 1), (2, 1), (1, 2), (2, 2)):
+        states, probs = make_states(r, n, k, "complex"), make_probs(r, k, "random")
+        for reset in (True, False):
+            for classical in (True, False):
+                if not classical and (n < 2 or k < 2):
+                    continue
+                oracle_case(ctx, n, k, states, probs, classical, reset, "bnd-reset", "random")
+                ctx.count(f"boundary:reset={int(reset)}:aux={clog2(k)}:{'classical' if classical else 'incircuit'}")
+        oracle_case(ctx, n, k, states, probs, True, True, "bnd-reset", "random", via_static=True)
+    # (4) the smallest sizes of the in-circuit mode: n = 2, k = 2 is inside the quantifier (checked above); n = 1 or
+    # k = 1 is outside it - whatever the code does there is recorded, and if it builds a circuit the circuit must be right
+    from qclib.state_preparation.mixed import MixedInitialize
+    for n, k in ((1, 1), (2, 1), (1, 2), (1, 3)):
+        states, probs = make_states(r, n, k, "complex"), make_probs(r, k, "random")
+        try:
+            MixedInitialize(states, probabilities=probs, classical=False).definition
+        except Exception as e:  # noqa: BLE001
+            ctx.count(f"boundary:incircuit-below-minimum:n={n}:k={k}:raises {type(e).__name__}")
+            continue
+        ctx.count(f"boundary:incircuit-below-minimum:n={n}:k={k}:builds")
+        oracle_case(ctx, n, k, states, probs, False, False, "bnd-min", "random")
+
+
+# ----------------------------------------------------------------------------------------------
 def compare(op, impl, model):
     import framework
     if any(l.startswith(("raise", "UNKNOWN", "PARSE")) for l in list(impl) + list(model)):
@@ -798,6 +937,10 @@ def run(ctx):
         run_oracle(ctx, 3, 6, per_cell=0)
         run_oracle(ctx, 4, 9, per_cell=4)
     run_options(ctx)
+    boundary_decisions(ctx)
+    boundary_ensembles(ctx)
+    ctx.notes.append("boundary cases: an entry is exactly at the bound (0.0, -0.0, 1.0), 1e-12 / one ulp beyond it (decided "
+                     "by the tie only: the property leaves rounding-size excesses open) or 1e-3 beyond it (tie and oracle)")
     ctx.notes.append("sum offsets within 5e-10..2e-9 of 1 are not generated (builtin sum is compensated in CPython>=3.12, "
                      "the model folds left; the decision can legitimately differ there)")
     ctx.notes.append("probability vectors whose length differs from the number of states are NOT rejected by the code "
